@@ -56,6 +56,11 @@ def run(ctx):
     for k in ctx.known:
         if k.get('replay_source'):
             run_programs(ctx, [(k['id'], k['replay_source'])], rc.RENAME_OPTION_SETS, 'known')
+    # T01.13 (behaviour is preserved by the renaming of function locals): the model of applying a renaming against
+    # minify(rename_locals only), and the theorem's side condition on the renaming the real renamer chose
+    from props import c01
+    import rungen
+    c01.renaming_application(ctx, [('core%d' % i, rungen.core_program(ctx.rng)) for i in range(ctx.scale(80, 2000))], 'generated-core')
 
 
 def search(ctx):
